@@ -189,6 +189,8 @@ def _prod(prod_op, rs):
 
 def worker(inst):
     from harness.oblig import decide
+    from symx.symarray import use_logsumexp_spec
+    use_logsumexp_spec()
     tier = os.environ.get("VERIF_TIER", "quick")
     out = decide("%s|%s/%s|%s" % (inst[2], inst[1]["sum_op"], inst[1]["prod_op"], _show(inst[1])), build_obligation(inst),
                  timeout_ms=6000 if tier == "quick" else 60000, twin=True)
@@ -318,7 +320,7 @@ def main():
     chk.map("checks.c09", "worker", insts, chunksize=4)
     chk.bounds = dict(factors="<= 4|5", variables="<= 3|4 of size 2", plates="<= 2|3 of sizes 1-2|3", unrolled_joint_cells="<= 256", semirings=[s[:2] for s in SEMIRINGS],
                       variants=["sum_product", "partial_sum_product", "two successive partial_sum_product calls", "modified/dynamic with empty Markov steps", "plated einsum"])
-    chk.assumptions = ["plate scales are integers 1-3 (a scaled plate = every index replicated as independent copies)", "graphs whose preserved variables live inside an eliminated plate are excluded (the unrolled copies would have to be distinct inputs)",
+    chk.assumptions = ["assume-guarantee cut: funsor.ops.logsumexp on symbolic arrays is replaced by its specification (decided on its own under C01/C15); maxima of ops.detach()ed log-space arrays are abstracted to arbitrary positive shifts", "plate scales are integers 1-3 (a scaled plate = every index replicated as independent copies)", "graphs whose preserved variables live inside an eliminated plate are excluded (the unrolled copies would have to be distinct inputs)",
                        "a ValueError/NotImplementedError from funsor is a decline"]
     chk.floor = 150
     chk.finish(rule="seeded random plated factor graphs per semiring x variant; distinct = descriptor", trusted_base=["z3 5.1", "symx", "brute-force unrolling in checks/c09.py"])
